@@ -63,6 +63,10 @@ func (v *Reader) Seek(offset int) {
 }
 
 func (v *Reader) Read(length int) string {
+	// nothing to read; asking the contents for zero bytes at the end of the input reports io.EOF
+	if length == 0 {
+		return ""
+	}
 	if v.offset+length-1 >= v.size {
 		return ""
 	}
@@ -78,6 +82,9 @@ func (v *Reader) Read(length int) string {
 }
 
 func (v *Reader) ReadAt(length int, offset int) string {
+	if length == 0 {
+		return ""
+	}
 	if offset+length-1 >= v.size {
 		return ""
 	}
